@@ -230,16 +230,17 @@ CLAIMS = {
              "for) together with 'every stored duplicate key clashes with the object at hand' (MachineTree.lean: bound_ok_y; "
              "MachineTreeTop.lean: top_ok_y; the earlier conjunctive theorem c05_single_variable_conj is kept). NOT proved: "
              "several variables, flatten, for_all, sub-queries, rule trees - for "
-             "which the full statement is false of the code: known findings C05-F1..F5). Decided there by the differential check: "
+             "which the full statement is false of the code: known findings C05-F1..F6). Decided there by the differential check: "
              "caching on vs off vs oracle vs the L2 machine, first and later evaluations (a third of the join cases after an "
              "abandoned evaluation), over joins (1-4 variables, shuffled declaration order), disjunctions over equal/different "
              "variable sets, negation, sub-queries, for_all, flatten, rule trees, with the number of cache hits taken reported.",
         note=BASE_NOTE + "A difference is attributed to C05-F1/F2 only when the L2 machine, which transliterates the cache code, "
              "reproduces the implementation's rows (for C05-F1 also: a cache observed non-prefix-uniform at a lookup, in a "
              "query of several variables with a literal inside a non-first operand of an and_/or_ - where the machine's cache "
-             "keys are known not to be the implementation's); to F3/F4/F5 (no model reproduces them) only inside their scope and when caching "
-             "off gives the specified rows: a mutation that changes behaviour inside those three scopes in a way that is still "
-             "wrong may be masked.",
+             "keys are known not to be the implementation's); to F3/F4/F5/F6 (no model reproduces them) only inside their scope and when caching "
+             "off gives the specified rows: a mutation that changes behaviour inside those four scopes in a way that is still "
+             "wrong may be masked (one seeded change, C12-right-cache-keys-drop-literals-..., is: it only brings C05-F4 forward by "
+             "one evaluation).",
         tech="Lean 4 proof (cache index; evaluator with caches and duplicate tracking for every single-variable and/or tree, "
              "induction over the tree with a specification per operator cache) + differential (cache on/off/oracle/L2 machine) "
              "correspondence"),
